@@ -101,7 +101,8 @@ def opcode_numbers(text):
 
 def vm_arm(texts, n):
     for t in texts:
-        m = re.search(r"^\s*%d\s*=>\s*\{" % n, t, flags=re.M)
+        # an arm may be shared by several opcodes: `177 | 178 | 179 => {`
+        m = re.search(r"^\s*(?:\d+\s*\|\s*)*%d(?:\s*\|\s*\d+)*\s*=>\s*\{" % n, t, flags=re.M)
         if m:
             i = m.end()
             depth, j = 1, i
